@@ -692,10 +692,13 @@ fn corpus(out: &mut Out, dir: &str, max_files: usize, r: &mut StdRng) -> usize {
         }
         let mut slots = Vec::new();
         for (i, p) in ptrs.iter().enumerate() {
-            if let Some(h) = cache.get(*p) {
-                if slots.len() < 200 {
-                    slots.push(json!([i + 1, jbytes(h.as_ref())]));
-                }
+            if !p.is_pair() || slots.len() >= 200 {
+                continue;
+            }
+            match catch(AssertUnwindSafe(|| cache.get(*p).copied())) {
+                Ok(Some(h)) => slots.push(json!([i + 1, jbytes(h.as_ref())])),
+                Ok(None) => {}
+                Err(_) => slots.push(json!([i + 1, []])),
             }
         }
         out.emit(&json!({
